@@ -371,6 +371,10 @@ func randomCall(r *rand.Rand, ts *TraceSpec, last *Event, chunkIDs []string, ope
 			}
 		}
 	}
+	if r.Intn(100) < 4 {
+		// the process restarts: index kept (1) or lost and rebuilt from the tape (0)
+		return Call{Op: "Restart", P: []string{}, Q: []string{}, K: r.Intn(2)}
+	}
 	switch x := r.Intn(100); {
 	case x < 4 && len(dirs) > 0:
 		// batched archive-interface call: 1..3 members with content below an existing directory
